@@ -137,6 +137,10 @@ MUTATIONS += [
 MUTATIONS += [
     dict(id="C05-trees-skip-dirs-continue", prop="C05", file=CK, old="        for node in tree.nodes {\n            match node.node_type {", new="        for node in tree.nodes {\n            if node.node_type == NodeType::Dir && node.subtree.is_none() {\n                continue;\n            }\n            match node.node_type {"),
 ]
+MUTATIONS += [
+    dict(id="C02-check-count-one", prop="C02", file=PR, old="            if *count == 0 {\n                return Err(RusticError::new(\n                    ErrorKind::Internal,\n                    \"Blob ID `{blob_id}` is missing in index files.\",", new="            if *count == 1 {\n                return Err(RusticError::new(\n                    ErrorKind::Internal,\n                    \"Blob ID `{blob_id}` is missing in index files.\","),
+]
+
 HARMLESS = [
     dict(id="H-C05-trees-symlink-continue", prop="C05", file=CK, old="        for node in tree.nodes {\n            match node.node_type {", new="        for node in tree.nodes {\n            if node.node_type == NodeType::Symlink {\n                continue;\n            }\n            match node.node_type {"),
 ]
